@@ -236,6 +236,29 @@ impl Iterator for Hinted {
 }
 fn hinted(bits: Vec<bool>, hint: Hint) -> Hinted { Hinted { bits, pos: 0, hint } }
 
+/// an iterator that is not fused: it yields the bits, then `None`, and if asked again five more ones before its final `None`
+/// (what `from_fn` over a stream with separators, or `try_iter` on a channel, can do). A consumer must stop at the first `None`.
+struct Resuming { bits: Vec<bool>, pos: usize, paused: bool, extra: usize }
+impl Iterator for Resuming {
+    type Item = Bit;
+    fn next(&mut self) -> Option<Bit> {
+        if self.pos < self.bits.len() {
+            self.pos += 1;
+            return Some(bit_of(self.bits[self.pos - 1]));
+        }
+        if !self.paused {
+            self.paused = true;
+            return None;
+        }
+        if self.extra > 0 {
+            self.extra -= 1;
+            return Some(Bit::One);
+        }
+        None
+    }
+}
+fn resuming(bits: Vec<bool>) -> Resuming { Resuming { bits, pos: 0, paused: false, extra: 5 } }
+
 // ---- constructors (by type tag) -------------------------------------------------------------------
 #[inline(never)]
 fn ctor<T: Sub + FromIterator<Bit>>(op: &str, a: &[&str]) -> String {
@@ -273,6 +296,7 @@ fn ctor<T: Sub + FromIterator<Bit>>(op: &str, a: &[&str]) -> String {
                 "n" => hinted(bits, Hint::None).collect(),
                 "l" => hinted(bits, Hint::Lower).collect(),
                 "f" => hinted(bits, Hint::Upper).collect(),
+                "r" => resuming(bits).collect(),
                 _ => bits.iter().map(|b| bit_of(*b)).collect(),
             };
             ok1(v.dump())
@@ -328,6 +352,7 @@ where
                 "n" => v.extend(hinted(bits, Hint::None)),
                 "l" => v.extend(hinted(bits, Hint::Lower)),
                 "f" => v.extend(hinted(bits, Hint::Upper)),
+                "r" => v.extend(resuming(bits)),
                 _ => v.extend(bits.iter().map(|b| bit_of(*b))),
             }));
             if r.is_err() {
